@@ -301,6 +301,10 @@ fn module_symbols(arch: Arch, os: OsKind, m: &ModSpec, adversarial: bool) -> (Ve
     if chance("dump.sym.origins", 1, 2) {
         s.push_str("INLINE_ORIGIN 0 inlined_helper\nINLINE_ORIGIN 1 another_inlinee\n");
     }
+    let extra_rule = if chance("dump.cfi.extra_rule", 1, 4) { 1 + ch("dump.cfi.extra_rule.kind", 6) } else { 0 };
+    if extra_rule > 0 {
+        probe("e4.cfi_malformed_extra_rule");
+    }
     let inline_shape = if adversarial && chance("dump.sym.inline_weird", 1, 3) { 1 + ch("dump.sym.inline_shape", 4) } else { 0 };
     let stride: u64 = [0x100, 0x40, 0x400][ch("dump.sym.stride", 3) as usize];
     let nfuncs = ((m.size as u64 / stride).min(96)).max(1);
@@ -388,6 +392,28 @@ fn module_symbols(arch: Arch, os: OsKind, m: &ModSpec, adversarial: bool) -> (Ve
             if weird {
                 hot.push(addr);
             }
+            // a further rule for a callee-saved register whose expression is malformed in one
+            // of the ways a broken dumper produces; the unwinder drops that one register
+            let init = if extra_rule > 0 && i % 2 == 0 {
+                let reg = match arch {
+                    Arch::X86 => "$ebx",
+                    Arch::Amd64 => "$rbx",
+                    Arch::Arm64 | Arch::Arm64Old => "x19",
+                    Arch::Arm => "r4",
+                    _ => "$s0",
+                };
+                let expr = match extra_rule {
+                    1 => ".cfa 16 - ^ 8",   // runs to completion with two values left
+                    2 => "+",               // stack underflow
+                    3 => ".cfa bogus +",    // unknown token
+                    4 => "1 2 3 4 5 6 7 8", // many values left
+                    5 => "0 ^",             // dereferences unmapped memory
+                    _ => ".cfa 0 /",        // division by zero
+                };
+                format!("{init} {reg}: {expr}")
+            } else {
+                init
+            };
             cfi.push_str(&format!("STACK CFI INIT {:x} {:x} {}\n", addr, size, init));
             if let Some(d) = delta {
                 cfi.push_str(&format!("STACK CFI {:x} {}\n", addr + 4, d));
